@@ -703,7 +703,7 @@ def run_impl(fh, paths):
                 try:
                     shapes.append(["leaf", canon_py(cur.value)])
                 except Exception as e:  # noqa: BLE001
-                    shapes.append(["leaf", ["exc", type(e).__name__]])
+                    shapes.append(["leaf", ["exc"]])
         except KeyError:
             shapes.append(["none"])
         except Exception as e:  # noqa: BLE001
@@ -755,7 +755,7 @@ def model_view(coq_val):
             ps.append(["node"])
         else:
             vr = core.res_of(s[1])
-            ps.append(["leaf", canon_coq_value(vr[1]) if vr[0] == "ok" else ["exc", vr[0]]])
+            ps.append(["leaf", canon_coq_value(vr[1]) if vr[0] == "ok" else ["exc"]])
     out["paths"] = ps
     out["link_ok"] = bool(shapes) or lr[0] == "ok" or True
     return out
@@ -920,4 +920,330 @@ class TreeSuite(Suite):
         return case
 
 
-SUITES = {"tree": TreeSuite()}
+# ============================================================================ malformed / adversarial stream
+MUTATIONS = ["trunc", "hdr_tie", "hdr_badsig", "hdr_badver", "rlog_badsig", "rlog_many", "otab_badsig", "otab_count",
+             "otab_cycle", "ktab_badsig", "ktab_seq_tie", "entry_size0", "entry_small", "entry_big", "doff0", "doff_big",
+             "bad_utf8", "bad_utf16", "type_unknown", "dangling_parent", "parent_free", "self_parent", "cycle2",
+             "dup_key", "fop_unknown", "fop_big", "fop_scalar", "inline_len_big", "tail_short", "flip", "file_dup",
+             "leaf_parent"]
+
+
+def _live(case):
+    """[(table, entry)] of non-free entries of every key table"""
+    return [(t, e) for t in case["ktabs"] for e in t["entries"] if (e["type"] & 0xFF) != T_FREE]
+
+
+def mutate(rng, base, name):
+    c = copy.deepcopy(base)
+    c["mutation"] = name
+    c.pop("expect", None)
+    live = _live(c)
+    ok = True
+    if name == "trunc":
+        marks = [0x1000, 0x2000, 0x2008] + [t["off"] + d for t in c["ktabs"] for d in (0, 5, 10, 20, t["size"] - 1, t["size"])]
+        marks += [b["off"] + len(b["data"]) // 2 - 1 for b in c["blobs"]] + [r["off"] + 20 for r in c["rlogs"]]
+        marks += [t["off"] + 8 + 18 * len(t["entries"]) - 1 for t in c["otabs"]]
+        c["fsize"] = max(0, min(c["fsize"], rng.pick(marks) + rng.pick([0, 0, 1, -1])))
+    elif name == "hdr_tie":
+        act = [h for h in c["hdrs"] if h is not None and h["sig"] == SIG_HDR and h["ver"] == 0x400][0]
+        c["hdrs"] = [dict(act), dict(act)]
+        c["hdrs"][rng.randrange(2)]["rlo"] = rng.pick([0, act["rlo"], c["fsize"] + 7])
+    elif name in ("hdr_badsig", "hdr_badver"):
+        i = max(range(2), key=lambda k: -1 if c["hdrs"][k] is None else c["hdrs"][k]["seq"])
+        if name == "hdr_badsig":
+            c["hdrs"][i]["sig"] ^= 1 << rng.randrange(32)
+        else:
+            c["hdrs"][i]["ver"] = rng.pick([0x300, 0x401, 0x3FF, 0, 0x10400])
+    elif name == "rlog_badsig":
+        rng.pick(c["rlogs"])["sig"] ^= 1 << rng.randrange(32)
+    elif name == "rlog_many":
+        r = rng.pick(c["rlogs"])
+        r["present"] = r["n"]
+        r["n"] = rng.pick([r["n"] + 1, 1000, 0xFFFFFFFF, (c["fsize"] - r["off"] - 34) // 28 + rng.pick([0, 1])])
+        r["n"] = max(0, r["n"])
+    elif name == "otab_badsig":
+        rng.pick(c["otabs"])["sig"] ^= 1 << rng.randrange(32)
+    elif name == "otab_count":
+        t = rng.pick(c["otabs"])
+        t["n"] = rng.pick([len(t["entries"]) + 1, len(t["entries"]) + 40, 0xFFFFFFFF, max(0, len(t["entries"]) - 1), 0])
+    elif name == "otab_cycle":
+        t = rng.pick(c["otabs"])
+        tgt = rng.pick([t["off"], 0x2000, rng.pick(c["otabs"])["off"]])
+        t["entries"].insert(rng.randint(0, len(t["entries"])), {"type": O_OTAB, "off": tgt, "size": 0x1000, "alloc": 1})
+        # keep the table inside its region: drop an ignored trailing entry if there is one, else accept overlap
+        if any(e["alloc"] == 0 for e in t["entries"]):
+            t["entries"].remove([e for e in t["entries"] if e["alloc"] == 0][0])
+        else:
+            ok = t is c["otabs"][0] and False
+    elif name == "ktab_badsig":
+        rng.pick(c["ktabs"])["sig"] = rng.pick([0, 1, 3, 0x0200, 0xFFFF])
+    elif name == "ktab_seq_tie":
+        idx = rng.pick(c["ktabs"])["index"]
+        same = [t for t in c["ktabs"] if t["index"] == idx]
+        if len(same) < 2:
+            ok = False
+        for t in same:
+            t["seq"] = same[0]["seq"]
+    elif name in ("entry_size0", "entry_small", "entry_big", "doff0", "doff_big", "type_unknown", "self_parent",
+                  "dangling_parent", "fop_scalar", "leaf_parent"):
+        if not live:
+            ok = False
+        else:
+            t, e = rng.pick(live)
+            if name == "entry_size0":
+                e["size"] = 0
+            elif name == "entry_small":
+                e["size"] = rng.randint(1, 21)
+            elif name == "entry_big":
+                e["size"] = rng.pick([t["size"] - e["off"] + 1, t["size"], 0xFFFFFFFF, e["size"] + 1])
+            elif name == "doff0":
+                e["doff"] = 0
+            elif name == "doff_big":
+                e["doff"] = rng.pick([255, e["doff"] + 1, max(0, e["size"] - 21), max(0, e["size"] - 20), e["doff"] - 1])
+                e["doff"] = max(0, min(255, e["doff"]))
+            elif name == "type_unknown":
+                e["type"] = (e["type"] & 0xFF00) | rng.pick([0, 2, 10, 200, 255])
+            elif name == "self_parent":
+                e["pidx"], e["poff"] = t["index"], e["off"]
+            elif name == "dangling_parent":
+                if rng.chance(0.5):
+                    e["pidx"] = rng.pick([x for x in range(1, 70000 if False else 65536)
+                                          if x not in {k["index"] for k in c["ktabs"]}][:50])
+                else:
+                    e["pidx"] = e["pidx"] or t["index"]
+                    e["poff"] = e["poff"] + rng.pick([1, -1, 21, 1 << 20])
+                    e["poff"] = max(0, e["poff"])
+            elif name == "fop_scalar":
+                e["type"] |= 0x100
+            else:
+                leaves = [(tt, ee) for tt, ee in live if (ee["type"] & 0xFF) != T_NODE and ee is not e]
+                if not leaves:
+                    ok = False
+                else:
+                    tt, ee = rng.pick(leaves)
+                    e["pidx"], e["poff"] = tt["index"], ee["off"]
+    elif name == "cycle2":
+        nodes = [(t, e) for t, e in live if (e["type"] & 0xFF) == T_NODE]
+        if len(nodes) < 2:
+            ok = False
+        else:
+            (t1, e1), (t2, e2) = rng.sample(nodes, 2)
+            e1["pidx"], e1["poff"] = t2["index"], e2["off"]
+            e2["pidx"], e2["poff"] = t1["index"], e1["off"]
+    elif name == "parent_free":
+        frees = [(t, e) for t in c["ktabs"] for e in t["entries"] if (e["type"] & 0xFF) == T_FREE]
+        if not frees or not live:
+            ok = False
+        else:
+            tf, ef = rng.pick(frees)
+            _, e = rng.pick(live)
+            e["pidx"], e["poff"] = tf["index"], ef["off"]
+    elif name == "bad_utf8":
+        cand = [(t, e) for t, e in live if e["doff"] >= 2]
+        if not cand:
+            ok = False
+        else:
+            t, e = rng.pick(cand)
+            body = bytearray.fromhex(e["body"])
+            klen = e["doff"] - 1
+            bad = rng.pick([b"\xff", b"\xc0\x80", b"\xed\xa0\x80", b"\xe2\x82", b"\xf4\x90\x80\x80", b"\x80", b"\xf0\x80\x80\x80",
+                            b"\xc2", b"\xe0\x9f\xbf", b"\xf8\x88\x80\x80\x80"])
+            bad = bad[:klen]
+            pos = rng.pick([0, klen - len(bad)])
+            body[pos:pos + len(bad)] = bad
+            e["body"] = bytes(body).hex()
+    elif name == "bad_utf16":
+        cand = [(t, e) for t, e in live if (e["type"] & 0xFF) == T_STRING and not (e["type"] & 0x100)]
+        if not cand:
+            ok = False
+        else:
+            t, e = rng.pick(cand)
+            body = bytearray.fromhex(e["body"])
+            d = e["doff"]
+            n = struct.unpack_from("<I", body, d)[0]
+            kind = rng.pick(["odd", "lone_hi", "lone_lo", "swapped"])
+            if kind == "odd" or n < 4:
+                struct.pack_into("<I", body, d, n + 1 if n + 1 <= len(body) - d - 4 else max(1, n - 1))
+            elif kind == "lone_hi":
+                body[d + 4 + n - 2:d + 4 + n] = struct.pack("<H", 0xD800 + rng.randrange(0x400))
+            elif kind == "lone_lo":
+                body[d + 4:d + 6] = struct.pack("<H", 0xDC00 + rng.randrange(0x400))
+            else:
+                body[d + 4:d + 8] = struct.pack("<HH", 0xDC00, 0xD800)
+            e["body"] = bytes(body).hex()
+    elif name == "dup_key":
+        done = False
+        for _ in range(20):
+            if len(live) < 2:
+                break
+            (t1, e1), (t2, e2) = rng.sample(live, 2)
+            if (e1["pidx"], e1["poff"] if e1["pidx"] else 0) == (e2["pidx"], e2["poff"] if e2["pidx"] else 0) \
+                    and e1["doff"] == e2["doff"] and e1["doff"] > 1:
+                b1, b2 = bytearray.fromhex(e1["body"]), bytes.fromhex(e2["body"])
+                b1[:e1["doff"] - 1] = b2[:e2["doff"] - 1]
+                e1["body"] = bytes(b1).hex()
+                done = True
+                break
+        ok = done
+    elif name in ("fop_unknown", "fop_big"):
+        cand = [(t, e) for t, e in live if e["type"] & 0x100 and (e["type"] & 0xFF) in (T_STRING, T_ARRAY)]
+        if not cand:
+            ok = False
+        else:
+            t, e = rng.pick(cand)
+            body = bytearray.fromhex(e["body"])
+            d = e["doff"]
+            size, off = struct.unpack_from("<IQ", body, d)
+            if name == "fop_unknown":
+                off = rng.pick([off + 1, 0, off + c["align"], 1 << 63])
+            else:
+                size = rng.pick([size + c["align"] * 3 + 2, 0xFFFFFFFF, size + 2 * c["align"] + 1])
+            struct.pack_into("<IQ", body, d, size, off)
+            e["body"] = bytes(body).hex()
+    elif name == "inline_len_big":
+        cand = [(t, e) for t, e in live if (e["type"] & 0xFF) in (T_STRING, T_ARRAY) and not (e["type"] & 0x100)]
+        if not cand:
+            ok = False
+        else:
+            t, e = rng.pick(cand)
+            body = bytearray.fromhex(e["body"])
+            n = struct.unpack_from("<I", body, e["doff"])[0]
+            struct.pack_into("<I", body, e["doff"], rng.pick([n + 2, n + 100, 0xFFFFFFFE, len(body)]))
+            e["body"] = bytes(body).hex()
+    elif name == "tail_short":
+        t = rng.pick(c["ktabs"])
+        end = max([10] + [e["off"] + e["size"] for e in t["entries"]])
+        t["entries"] = [e for e in t["entries"] if e["off"] + e["size"] <= end]
+        slack = rng.randint(1, 20)
+        t["size"] = end + slack
+        for o in c["otabs"]:
+            for e in o["entries"]:
+                if e["type"] == O_KTAB and e["off"] == t["off"] and e["alloc"]:
+                    e["size"] = t["size"]
+    elif name == "flip":
+        size, chunks = build_chunks(c)
+        chunks = [ch for ch in chunks if len(ch[1])]
+        c["patches"] = []
+        for _ in range(rng.randint(1, 3)):
+            off, data = rng.pick(chunks)
+            pos = rng.randrange(len(data))
+            c["patches"].append({"off": off + pos, "data": bytes([data[pos] ^ (1 << rng.randrange(8))]).hex()})
+    elif name == "file_dup":
+        files = [(o, e) for o in c["otabs"] for e in o["entries"] if e["type"] == O_FILE and e["alloc"]]
+        if not files:
+            ok = False
+        else:
+            o, e = rng.pick(files)
+            dup = dict(e, size=rng.pick([0, 1, max(0, e["size"] - c["align"]), e["size"] + c["align"]]))
+            o2 = c["otabs"][0] if rng.chance(0.5) else o
+            o2["entries"].insert(rng.randint(0, len(o2["entries"])), dup)
+            o2["entries"] = o2["entries"]
+            # overlapping the next region is accepted: later writes win in the writer
+    return c if ok else None
+
+
+class MalSuite(Suite):
+    name = "mal"
+    shard = 10
+    per_case_timeout = 6.0
+    preamble = PREAMBLE
+
+    def generate(self, rng, tier):
+        n = 1800 if tier == "thorough" else 130
+        out = []
+        k = 0
+        while len(out) < n:
+            base = gen_case(rng, tier)
+            if base["dims"]["high"]:
+                # a corrupted 32-bit size on a multi-GiB sparse file makes the implementation allocate GiBs: C11's scope
+                continue
+            name = MUTATIONS[k % len(MUTATIONS)]
+            k += 1
+            if name == "otab_cycle" and tier != "thorough" and sum(1 for c in out if c["mutation"] == "otab_cycle") >= 2:
+                continue
+            m = mutate(rng, base, name)
+            if m is not None:
+                out.append(m)
+        return out
+
+    def impl(self, case):
+        return run_impl(open_sparse(case), case["paths"])
+
+    def coq_term(self, case):
+        size, chunks = build_chunks(case)
+        return f"decode {file_term(size, chunks)} {paths_term(case['paths'])}"
+
+    def judge(self, case, impl_res, coq_val):
+        return judge_common(case, impl_res, coq_val, "hyperv:mal", False)
+
+    def nontrivial(self, case, impl_res, coq_val):
+        if impl_res.get("outcome"):
+            return None
+        size, chunks = build_chunks(case)
+        return core.sha(b"".join(struct.pack("<Q", o) + b for o, b in chunks))
+
+    def dist(self, case):
+        return {"mutation": case["mutation"]}
+
+    def describe(self, case):
+        return case
+
+
+# ============================================================================ raw files (real samples, hex corpora)
+def raw_chunks(data: bytes):
+    return len(data), split_run(0, data)
+
+
+class RawSuite(Suite):
+    """cases: {"sample": "test.vmcx"} (read from <repo>/tests/data) or {"hex": "<file bytes>"}; optional "paths",
+    optional "expect_version_value" (configuration/properties/version)."""
+    name = "raw"
+    shard = 1
+    per_case_timeout = 6.0
+    preamble = PREAMBLE
+
+    def _data(self, case):
+        if "hex" in case:
+            return bytes.fromhex(case["hex"])
+        with open(os.path.join(core.REPO, "tests", "data", case["sample"]), "rb") as fh:
+            return fh.read()
+
+    def generate(self, rng, tier):
+        p = [["configuration"], ["configuration", "properties", "version"], ["configuration", "properties"],
+             ["configuration", "nope"], ["configuration", "global_settings", "metrics", "devicetype", "guid"]]
+        return [{"sample": "test.vmcx", "paths": p, "expect_version_value": 2304},
+                {"sample": "test.VMRS", "paths": p, "expect_version_value": 2304}]
+
+    def impl(self, case):
+        data = self._data(case)
+        return run_impl(core.SparseFile(len(data), {0: data}, fill="zero"), case.get("paths", []))
+
+    def coq_term(self, case):
+        size, chunks = raw_chunks(self._data(case))
+        return f"decode {file_term(size, chunks)} {paths_term(case.get('paths', []))}"
+
+    def judge(self, case, impl_res, coq_val):
+        case = dict(case, paths=case.get("paths", []))
+        fs = judge_common(case, impl_res, coq_val, "hyperv:raw", False)
+        if "expect_version_value" in case and not impl_res.get("outcome"):
+            want = ["leaf", ["i", case["expect_version_value"]]]
+            if impl_res["open"] is not None or impl_res["paths"][1] != want:
+                fs.append(Finding("impl_vs_spec", f"sample {case.get('sample')}: configuration/properties/version is not "
+                                  f"{case['expect_version_value']}", "hyperv:raw:sample-version"))
+            m = model_view(coq_val)
+            if m["open"] is not None or m["paths"][1] != want:
+                fs.append(Finding("model_vs_spec", f"sample {case.get('sample')}: model does not find the version",
+                                  "hyperv:raw:mvs-sample"))
+        return fs
+
+    def nontrivial(self, case, impl_res, coq_val):
+        return case.get("sample") or core.sha(case["hex"].encode())
+
+    def dist(self, case):
+        return {"kind": "sample" if "sample" in case else "hex"}
+
+    def describe(self, case):
+        return case
+
+
+SUITES = {"tree": TreeSuite(), "mal": MalSuite(), "raw": RawSuite()}
